@@ -23,7 +23,7 @@ use succinctly::jq::{
 use succinctly::json::JsonIndex;
 use succinctly::yaml::{
     format_float_yq_yaml, format_float_yq_yaml_nested, resolve_plain, resolve_tagged,
-    stream_yaml_sequence, YamlCursor, YamlIndex, YamlValue,
+    stream_yaml_sequence, ResolvedScalar, YamlCursor, YamlIndex, YamlValue,
 };
 
 use super::{FrontMatterMode, InputFormat, OutputFormat, YqCommand};
@@ -157,7 +157,14 @@ impl OutputConfig {
         // Compact output when indent is 0 (yq-compatible)
         let compact = args.indent == 0;
 
-        let indent_str = if compact {
+        let indent_str = if compact && args.output_format == OutputFormat::Yaml {
+            // `-I0` has no "compact" YAML block form: an empty step would put
+            // a nested block mapping's fields on their parent's own column
+            // (`a:\nb: 1`), which reads back as siblings. Use the same 2
+            // spaces the streaming fast path hardcodes for `-I0`
+            // (`yaml_indent_spaces` in `run_yq`). JSON still reads `compact`.
+            "  ".to_string()
+        } else if compact {
             String::new()
         } else if args.tab {
             "\t".to_string()
@@ -2007,7 +2014,7 @@ fn emit_yaml_value_at_depth(
             // and yq preserves a document literal's exact text.
             literal.to_string()
         }
-        OwnedValue::String(s) => yaml_quote_string_with_style(s, comments.style()),
+        OwnedValue::String(s) => yaml_quote_string_with_style(s, comments.style(), in_flow),
         OwnedValue::Array(arr) => {
             if arr.is_empty() {
                 "[]".to_string()
@@ -2149,7 +2156,7 @@ fn emit_yaml_value_at_depth(
                 let entries: Vec<_> = obj
                     .iter()
                     .map(|(k, v)| {
-                        let key = yaml_quote_key(k);
+                        let key = yaml_quote_key(k, true);
                         let field_comments = comments.field(k);
                         let val = emit_yaml_value_at_depth(
                             v,
@@ -2178,7 +2185,7 @@ fn emit_yaml_value_at_depth(
                 let items: Vec<_> = entries
                     .iter()
                     .map(|(k, v)| {
-                        let key = yaml_quote_key(k);
+                        let key = yaml_quote_key(k, false);
                         let field_comments = comments.field(k);
                         let comment_suffix = trailing_comment_suffix(field_comments);
                         let val_indent = format!("{indent}{}", config.indent_str);
@@ -2257,8 +2264,10 @@ fn emit_yaml_value_at_depth(
     }
 }
 
-/// Quote a YAML string if needed.
-fn yaml_quote_string(s: &str) -> String {
+/// Quote a YAML string if needed. `in_flow`: the scalar is written inside a
+/// flow collection (`[...]`/`{...}`), where `,` `[` `]` `{` `}` end a plain
+/// scalar.
+fn yaml_quote_string(s: &str, in_flow: bool) -> String {
     // Check if string needs quoting
     if s.is_empty() {
         return "''".to_string();
@@ -2274,6 +2283,16 @@ fn yaml_quote_string(s: &str) -> String {
         || lower == ".inf"
         || lower == "-.inf"
         || s.parse::<f64>().is_ok()
+        // Whatever the loader itself would not read back as a string: every
+        // core-schema spelling `resolve_plain` knows, including the ones the
+        // list above misses (`0x1F`, `0o17`, `+.inf`).
+        || !matches!(resolve_plain(s), ResolvedScalar::Str)
+        // A leading space is not part of a plain scalar (`a:  x` reads `x`).
+        || s.starts_with(' ')
+        || s.starts_with(',')
+        || s.starts_with(']')
+        || s.starts_with('}')
+        || in_flow && s.contains([',', '[', ']', '{', '}'])
         || s.starts_with('*')
         || s.starts_with('&')
         || s.starts_with('!')
@@ -2369,7 +2388,7 @@ fn can_single_quote(s: &str) -> bool {
 /// are block-scalar styles this DOM writer doesn't reproduce; see
 /// `CommentTree`'s own doc comment) falls back to the plain heuristic
 /// unchanged.
-fn yaml_quote_string_with_style(s: &str, style: &str) -> String {
+fn yaml_quote_string_with_style(s: &str, style: &str, in_flow: bool) -> String {
     // No empty-string special case needed here (unlike `yaml_quote_string`
     // below): every arm already renders `""` correctly on its own -
     // `yaml_double_quote_escaped`/`yaml_single_quote_escaped` produce
@@ -2381,12 +2400,13 @@ fn yaml_quote_string_with_style(s: &str, style: &str) -> String {
     match style {
         "single" if can_single_quote(s) => yaml_single_quote_escaped(s),
         "double" => yaml_double_quote_escaped(s),
-        _ => yaml_quote_string(s),
+        _ => yaml_quote_string(s, in_flow),
     }
 }
 
-/// Quote a YAML key if needed.
-fn yaml_quote_key(s: &str) -> String {
+/// Quote a YAML key if needed. `in_flow`: the key is written inside a flow
+/// mapping (`{...}`).
+fn yaml_quote_key(s: &str, in_flow: bool) -> String {
     // Keys have similar rules but are a bit more permissive
     if s.is_empty() {
         return "''".to_string();
@@ -2396,6 +2416,10 @@ fn yaml_quote_key(s: &str) -> String {
         || s.contains('#')
         || s.contains('\n')
         || s.contains('\r')
+        // A tab next to the key's ends is indentation / separation, not
+        // content (`k\t: 1` reads `k`; a leading one is rejected outright).
+        || s.contains('\t')
+        || s.starts_with(' ')
         || s.starts_with('-')
         || s.starts_with('?')
         || s.starts_with('[')
@@ -2405,23 +2429,25 @@ fn yaml_quote_key(s: &str) -> String {
         || s.starts_with('*')
         || s.starts_with('&')
         || s.starts_with('!')
+        // The remaining indicators: `|`/`>` open a block scalar, `%` at the
+        // start of a line is a directive, `@`/`` ` `` are reserved.
+        || s.starts_with('|')
+        || s.starts_with('>')
+        || s.starts_with('%')
+        || s.starts_with('@')
+        || s.starts_with('`')
+        || s.starts_with(',')
+        || s.starts_with(']')
+        || s.starts_with('}')
+        // A plain `<<` is the merge key; `... ` at the start of a line is a
+        // document end marker.
+        || s == "<<"
+        || s.starts_with("... ")
+        || in_flow && s.contains([',', '[', ']', '{', '}'])
         || s.ends_with(' ');
 
     if needs_quoting {
-        let mut result = String::with_capacity(s.len() + 2);
-        result.push('"');
-        for c in s.chars() {
-            match c {
-                '"' => result.push_str("\\\""),
-                '\\' => result.push_str("\\\\"),
-                '\n' => result.push_str("\\n"),
-                '\r' => result.push_str("\\r"),
-                '\t' => result.push_str("\\t"),
-                _ => result.push(c),
-            }
-        }
-        result.push('"');
-        result
+        yaml_double_quote_escaped(s)
     } else {
         s.to_string()
     }
